@@ -553,6 +553,13 @@ namespace Pistache::Tcp
                 }
             }
         }
+        else
+        {
+            // The timer was disarmed: its promise will never be settled, so the
+            // continuation that closes the descriptor never runs.  This is the
+            // last time the transport sees it: release it here.
+            ::close(entry.fd);
+        }
     }
 
     bool Transport::isPeerFd(Fd fd) const
